@@ -68,6 +68,7 @@ pub fn parse_sweep(args: &[String]) -> anyhow::Result<()> {
         let mut by_cf: Vec<Value> = vec![];
         let mut wrongtag0 = 0u64;
         let mut ok_cfs = std::collections::BTreeSet::new();
+        let mut per_cf: std::collections::HashMap<u16, u64> = Default::default();
         // first pass: find the control fields for which anything but WrongTag(0) happens
         for cf in 0..=65535u16 {
             let own = owners.get(&cf);
@@ -84,11 +85,22 @@ pub fn parse_sweep(args: &[String]) -> anyhow::Result<()> {
             let b_other = gen::gen_struct(&l, &other_t, &mut rng, 0, true);
             let nrand = rng.range(0, 12) as usize;
             let b_rand = rng.bytes(nrand);
-            let bodies: [(&str, Vec<u8>); 4] = [("empty", vec![]), ("own", b_own), ("other", b_other), ("random", b_rand)];
+            let mut bodies: Vec<(&str, Vec<u8>)> = vec![("empty", vec![]), ("own", b_own), ("other", b_other), ("random", b_rand)];
+            // a control field that several packet types share (06 0F: completion, receipt printout completion, system information;
+            // 06 1E: the three aborts; ...): bodies of EVERY one of them, several each - whichever of them the parser lists, what it
+            // returns is that type's own reading of the body
+            if let Some(ts) = own {
+                for t in ts {
+                    for _ in 0..4 {
+                        bodies.push(("own", gen::gen_struct(&l, t, &mut rng, 0, true)));
+                    }
+                }
+            }
             for (bk, body) in bodies.iter() {
                 let input = framed(cf, body);
                 let o = p(&input);
                 calls += 1;
+                *per_cf.entry(cf).or_default() += 1;
                 if o.st == "err" && o.kind == "WrongTag" && o.tags == vec![0] {
                     wrongtag0 += 1;
                 } else {
@@ -109,7 +121,9 @@ pub fn parse_sweep(args: &[String]) -> anyhow::Result<()> {
             let o = p(&[x]);
             short.push(json!({"in": [x], "st": o.st, "kind": o.kind}));
         }
-        writeln!(w, "{}", json!({"enum": name, "calls": calls, "wrongtag0": wrongtag0, "noted": by_cf,
+        // the calls made on the control fields for which anything but WrongTag(0) happened
+        let inset: u64 = ok_cfs.iter().map(|cf| per_cf.get(cf).copied().unwrap_or(0)).sum();
+        writeln!(w, "{}", json!({"enum": name, "calls": calls, "wrongtag0": wrongtag0, "inset_calls": inset, "noted": by_cf,
                                   "noted_cfs": ok_cfs.iter().collect::<Vec<_>>(), "short": short}))?;
     }
     w.flush()?;
